@@ -51,6 +51,19 @@ STR_OPS = [
     (r"\\n", ""), (r"\\0", r"\\n"), (r"(?<=[a-z])-(?=[a-z])", "_"), (r"\{\}", "{:?}"),
     (r"(?<=-)([a-z])([a-z])", lambda m: m.group(2) + m.group(1)), (r"(?<![\w{:])(\d)(?![\w}])", lambda m: str((int(m.group(1)) + 1) % 10)),
 ]
+# near-twins of library calls and small structural slips
+TWINS = [
+    (r"\btake_while\(", "take_till("), (r"\btake_till\(", "take_while("), (r"\bmultispace0\b", "space0"), (r"\bmultispace1\b", "space1"),
+    (r"\bdigit1\b", "alphanumeric1"), (r"\balpha1\b", "alphanumeric1"), (r"\bone_of\(", "none_of("), (r"\bliteral\(", "winnow::ascii::Caseless("),
+    (r"\brepeat\(0\.\.", "repeat(1.."), (r"\brepeat\(1\.\.", "repeat(0.."), (r"\brepeat_till\(1\.\.", "repeat_till(0.."), (r"\bseparated\(1\.\.", "separated(0.."),
+    (r"\.context\(([^()]*\([^()]*\))\)", ""), (r"\bterminated\(([^,]+), (eof|boundary)\)", r"\1"), (r"\bpeek\(", "("), (r"\bopt\(", "("),
+    (r"\.try_map\(", ".map("), (r"\.verify_map\(", ".map("), (r"\.and_then\(", ".map("), (r"\.min\(", ".max("), (r"\.max\(", ".min("),
+    (r"\bchecked_mul\b", "wrapping_mul"), (r"\bchecked_add\b", "wrapping_add"), (r"\bfrom_str_radix\(([^,]+), 8\)", r"from_str_radix(\1, 10)"),
+    (r"\.insert\(", ".entry("), (r"\.or_insert\(", ".or_default(); let _ = ("), (r"\.get\(&", ".get(&&"), (r"\.clone\(\)", ""), (r"\.to_owned\(\)", ".clone()"),
+    (r"\.iter\(\)", ".iter().rev()"), (r"\.push\(", ".insert(0, "), (r"\.push_str\(", ".insert_str(0, "), (r"\.last\(\)", ".first()"),
+    (r"\bOk\(\(\)\)", "Err(Default::default())"), (r"\?;", ".ok();"), (r"\.unwrap_or\(", ".unwrap_or_else(|| "), (r"\bas u8\b", "as u32 as u8"), (r"\bas u32\b", "as u16 as u32"),
+    (r"\bRc::new\(", "Rc::from("), (r"&mut \*", "&mut "), (r"\.fold\(", ".rfold("), (r"\bto_string\(\)", "to_string().to_lowercase()"), (r"\.is_some_and\(", ".is_none_or("),
+]
 STRLIT = re.compile(r'"((?:[^"\\]|\\.)*)"')
 ENUM = re.compile(r"\benum\s+(\w+)\s*(?:<[^>]*>)?\s*\{(.*?)\n\}", re.S)
 
@@ -136,6 +149,17 @@ def mutants():
                                 continue
                             seen.add(key)
                             ms.append(dict(file=rel, line=i + 1, old=ln.strip(), new=new.strip(), text=new, op="variant %s::%s→%s" % (en, vn, sib[0])))
+            if "twins" in KINDS:
+                for pat, rep in TWINS:
+                    for m in re.finditer(pat, code):
+                        if code[: m.start()].count('"') % 2 == 1:
+                            continue
+                        new = code[: m.start()] + (m.expand(rep)) + code[m.end():] + ln[len(code):]
+                        key = (i, new)
+                        if key in seen or new == ln:
+                            continue
+                        seen.add(key)
+                        ms.append(dict(file=rel, line=i + 1, old=ln.strip(), new=new.strip(), text=new, op="twin %s" % pat))
             if "lines" in KINDS:
                 st = code.strip()
                 # statement deletion: a call or assignment standing on its own line
